@@ -134,6 +134,9 @@ structure State where
   disabled : Bool
   running : Bool
   crit : Option (Nat × CPhase)
+  /-- the lock holder connecting the endpoints is a `reset` (it has written the
+  empty archive). -/
+  resetting : Bool
   loop : Option Loop
   gen : Nat
   sync : Bool
@@ -145,7 +148,7 @@ structure State where
 
 def init (watch : Bool) : State :=
   { watch := watch, sess := none, arch := none, entry := false, disabled := false, running := false,
-    crit := none, loop := none, gen := 0, sync := false, flushQ := none, threads := [], used := [] }
+    crit := none, resetting := false, loop := none, gen := 0, sync := false, flushQ := none, threads := [], used := [] }
 
 def newLoop (pc : LPC) (held : Bool) : Loop :=
   { pc := pc, a := 0, b := 0, ha := held, hb := held, cancelled := false, req := none, forced := false,
@@ -227,7 +230,7 @@ def loopSteps (s : State) (l : Loop) : List (Label × State) :=
       (match s.flushQ with
        | some t =>
          [(.tau, ({ s with flushQ := none, loop := some { l with req := some t, trig := true } }).updThread t
-            fun th => { th with accepted := true, fullA := false, fullB := false, okA := false, okB := false })]
+            fun th => { th with accepted := true })]
        | none => []) ++
       (if l.cancelled then [(.tau, put { l with trig := true, leaving := true })] else []) ++
       (if s.watch && (l.a == 2 || l.b == 2) then [(.tau, put { l with trig := true })] else [])
@@ -312,7 +315,7 @@ def acquire (s : State) (th : Thread) : List State :=
       (match s.loop with
        | some l => if l.connected then [] else [stop]
        | none => [stop])
-    else [({ s with sess := some false, crit := some (th.id, .connA false) }).setThread { th with ph := .inside }]
+    else [({ s with sess := some false, crit := some (th.id, .connA false), resetting := false }).setThread { th with ph := .inside }]
   | .reset =>
     if s.disabled then [finish s th .disabled]
     else if s.running then [stop]
@@ -331,8 +334,8 @@ def afterStop (s : State) (th : Thread) : List State :=
   | .pause => [finish { s with sess := some true, crit := none } th .ok]
   | .terminate =>
     [({ s with disabled := true, sess := none, arch := none, crit := none }).setThread { th with ph := .termDel }]
-  | .resume => [{ s with sess := some false, crit := some (th.id, .connA false) }]
-  | .reset => [{ s with sess := some false, arch := some false, crit := some (th.id, .connA false) }]
+  | .resume => [{ s with sess := some false, crit := some (th.id, .connA false), resetting := false }]
+  | .reset => [{ s with sess := some false, arch := some false, crit := some (th.id, .connA false), resetting := true }]
   | .restart => [({ s with disabled := true, crit := none }).setThread { th with ph := .reload }]
   | _ => []
 
@@ -348,6 +351,10 @@ def Op.isWaitingFlush : Op → Bool
 
 def Op.isTerminate : Op → Bool
   | .terminate => true
+  | _ => false
+
+def Op.isReset : Op → Bool
+  | .reset => true
   | _ => false
 
 def Op.isRestart : Op → Bool
@@ -370,7 +377,7 @@ def threadSteps (s : State) (th : Thread) : List (Label × State) :=
       else if paused then
         [(.tau, finish { s with sess := some true, arch := some false, entry := true, disabled := false, running := false } th .ok)]
       else
-        [(.tau, ({ s with crit := some (th.id, .connA true), disabled := false, running := false }).setThread { th with ph := .inside })]
+        [(.tau, ({ s with crit := some (th.id, .connA true), resetting := false, disabled := false, running := false }).setThread { th with ph := .inside })]
     | .restart =>
       -- (Manager.Shutdown takes each controller's lifecycle lock)
       if !othersIdle s th.id || s.crit.isSome then []
@@ -389,12 +396,14 @@ def threadSteps (s : State) (th : Thread) : List (Label × State) :=
       if t != th.id then [] else
       match ph with
       | .stopping => if s.loop.isNone then (afterStop s th).map fun s' => (.tau, s') else []
-      | .connA c => if !th.op.connects then [] else [(.ep (.conn .alpha), { s with crit := some (t, .connB c) })]
+      | .connA c =>
+        if !th.op.connects || th.op.isReset != s.resetting then []
+        else [(.ep (.conn .alpha), { s with crit := some (t, .connB c) })]
       | .connB c =>
-        if !th.op.connects then [] else
+        if !th.op.connects || th.op.isReset != s.resetting then [] else
         -- both endpoints connected: (create: save the files, register), start the loop
         let s1 : State := if c then { s with sess := some false, arch := some false, entry := true } else s
-        [(.ep (.conn .beta), finish ({ s1 with crit := none }.startLoop .connA true) th .ok)]
+        [(.ep (.conn .beta), finish ({ s1 with crit := none, resetting := false }.startLoop .connA true) th .ok)]
     | none => []
   | .termDel => if !th.op.isTerminate then [] else [(.tau, finish { s with entry := false } th .ok)]
   | .reload =>
